@@ -2,7 +2,10 @@
    conservation, and the headline: both peers always agree on every commitment.
 
    Every theorem quantifies over ALL event lists: every interleaving of the two FIFO streams, every
-   sequence of adds / fulfils / fails, every delay between building, releasing and delivering.
+   sequence of adds / fulfils / fails, every delay between building, releasing and delivering, and
+   DISCONNECTIONS AND RECONNECTIONS AT ANY POINT (`Ev.disconnect`: everything on the wire is lost, both nodes
+   run `remove_uncommitted_htlcs_and_mark_paused`; `Ev.reest y`: y processes the peer's
+   `channel_reestablish` and schedules its retransmissions in `resend_order`).
 
    FINDING.  The model's `step` admits runs in which agreement FAILS (`agreement_fails_*` below, checked
    by `decide`).  Two enabling conditions of the real node are missing from `step`:
@@ -24,8 +27,12 @@
 
    Proof architecture (Proofs/Channel/*.lean): each HTLC is viewed jointly — offerer state, receiver
    state, the tokens of the two FIFO streams that concern it (in flight ++ held back ++ owed), the two
-   AwaitingRemoteRevoke flags.  Under (G1) the full stream is an append-only FIFO, every protocol step is
-   one of seven abstract moves on every HTLC's configuration, and the 106 reachable configurations are
+   AwaitingRemoteRevoke flags.  While a node is disconnected its stream is what it WILL retransmit (computed
+   from the two nodes' commitment numbers as `channel_reestablish` does), so `reest` changes no stream and a
+   disconnection acts by the abstract move `mDisc`; `Base.i7` proves that a retransmission repeats the
+   original order of revoke_and_ack and commitment_signed.  Under (G1) the full stream is an append-only
+   FIFO, every protocol step is one of eight abstract moves on every HTLC's configuration, and the 106
+   reachable configurations (the same set with or without disconnections) are
    closed under the moves (`good_closed`, by `decide` through the GENERATED tables: flipping an entry of
    `included_in_commitment` or of a state rewrite breaks it).  Agreement and the balance identities are
    per-configuration facts (`good_okI`, `good_okO`, `good_balI`, `good_balO`, …, by `decide`). -/
@@ -33,46 +40,44 @@ import LdkModel.Proofs.Channel
 namespace Ldk.ChanProto
 open Ldk.Chan
 
-/-! ### 1. counters -/
+/-! ### 1. counters (commitment NUMBERS: retransmissions never bump them) -/
 
-/-- every event changes each commitment_signed / revoke_and_ack send counter by exactly its own contribution -/
+/-- every event changes each "commitments signed" counter by exactly its own contribution -/
 theorem counters_step_by_one (s s' : Sys) (e : Ev) (h : step s e = some s') :
     s'.a.csSent = s.a.csSent + (if isCommit true e then 1 else 0) ∧
-    s'.a.raaSent = s.a.raaSent + (if isSendRaa true e then 1 else 0) ∧
-    s'.b.csSent = s.b.csSent + (if isCommit false e then 1 else 0) ∧
-    s'.b.raaSent = s.b.raaSent + (if isSendRaa false e then 1 else 0) :=
+    s'.b.csSent = s.b.csSent + (if isCommit false e then 1 else 0) :=
   step_event_counts h
 
 example : step (Sys.init 10 10) (.commit true [3] [] []) ≠ none := by decide
 
-/-- In every run: the send counters count the `commit` / `sendRaa` events; every commitment_signed sent
-    has been processed or is still held back / on the wire, likewise every revoke_and_ack; hence the chain
+/-- In every run (with disconnections): `csSent` counts the `commit` events — a retransmission after a
+    reconnection is not a new commitment; a commitment_signed on the wire or held back has been signed and not
+    yet processed, likewise a revoke_and_ack on the wire; hence the chain
     `raaRecv ≤ peer.raaSent ≤ peer.csRecv ≤ csSent` in both directions. -/
 theorem counters (va vb : Nat) (evs : List Ev) (s : Sys) (h : run (Sys.init va vb) evs = some s) :
-    s.a.csSent = evs.countP (isCommit true) ∧ s.a.raaSent = evs.countP (isSendRaa true) ∧
-    s.b.csSent = evs.countP (isCommit false) ∧ s.b.raaSent = evs.countP (isSendRaa false) ∧
-    s.b.csRecv + countCs (s.qab ++ s.pendA) = s.a.csSent ∧ s.a.csRecv + countCs (s.qba ++ s.pendB) = s.b.csSent ∧
-    s.a.raaRecv + countRaa s.qba = s.b.raaSent ∧ s.b.raaRecv + countRaa s.qab = s.a.raaSent ∧
+    s.a.csSent = evs.countP (isCommit true) ∧ s.b.csSent = evs.countP (isCommit false) ∧
+    s.b.csRecv + countCs (s.qab ++ s.pendA) ≤ s.a.csSent ∧ s.a.csRecv + countCs (s.qba ++ s.pendB) ≤ s.b.csSent ∧
+    s.a.raaRecv + countRaa s.qba ≤ s.b.raaSent ∧ s.b.raaRecv + countRaa s.qab ≤ s.a.raaSent ∧
     (s.a.raaRecv ≤ s.b.raaSent ∧ s.b.raaSent ≤ s.b.csRecv ∧ s.b.csRecv ≤ s.a.csSent) ∧
     (s.b.raaRecv ≤ s.a.raaSent ∧ s.a.raaSent ≤ s.a.csRecv ∧ s.a.csRecv ≤ s.b.csSent) := by
-  obtain ⟨c1, c2, c3, c4⟩ := run_event_counts evs _ s h
+  obtain ⟨c1, c3⟩ := run_event_counts evs _ s h
   obtain ⟨ca, cb⟩ := Cnt.run evs _ s (Cnt.init va vb) h
   have a1 := ca.k1; have a2 := ca.k2; have a4 := ca.k4
-  have b1 : s.a.csRecv + countCs (s.qba ++ s.pendB) = s.b.csSent := cb.k1
-  have b2 : s.b.raaRecv + countRaa s.qab = s.a.raaSent := cb.k2
+  have b1 : s.a.csRecv + countCs (s.qba ++ s.pendB) ≤ s.b.csSent := cb.k1
+  have b2 : s.b.raaRecv + countRaa s.qab ≤ s.a.raaSent := cb.k2
   have b4 : s.b.raaSent + s.b.owesRaa = s.b.csRecv := cb.k4
-  refine ⟨by simpa [Sys.init, Node.init] using c1, by simpa [Sys.init, Node.init] using c2,
-    by simpa [Sys.init, Node.init] using c3, by simpa [Sys.init, Node.init] using c4, a1, b1, a2, b2, ?_, ?_⟩
+  refine ⟨by simpa [Sys.init, Node.init] using c1, by simpa [Sys.init, Node.init] using c3, a1, b1, a2, b2, ?_, ?_⟩
   · omega
   · omega
 
-example : run (Sys.init 10 10) [.commit true [3] [] [], .release true, .recv false, .recv false, .sendRaa false, .recv true] ≠ none := by
+example : run (Sys.init 10 10) [.commit true [3] [] [], .release true, .recv false, .disconnect, .reest true, .reest false,
+    .release true, .recv false, .recv false, .sendRaa false, .recv true] ≠ none := by
   decide
 
 /-! ### 2. at most one unrevoked commitment -/
 
-/-- A node never signs a new counterparty commitment while an earlier one is unrevoked, and
-    AwaitingRemoteRevoke is set exactly while one is outstanding. -/
+/-- A node never signs a new counterparty commitment while an earlier one is unrevoked — across
+    disconnections too — and AwaitingRemoteRevoke is set exactly while one is outstanding. -/
 theorem at_most_one_outstanding (va vb : Nat) (evs : List Ev) (s : Sys) (h : run (Sys.init va vb) evs = some s) :
     s.a.csSent ≤ s.a.raaRecv + 1 ∧ s.b.csSent ≤ s.b.raaRecv + 1 ∧
     (s.a.awaitingRaa = true ↔ s.a.csSent = s.a.raaRecv + 1) ∧
@@ -86,11 +91,14 @@ theorem at_most_one_outstanding (va vb : Nat) (evs : List Ev) (s : Sys) (h : run
   · cases hw : s.a.awaitingRaa <;> simp [hw] at a3 ⊢ <;> omega
   · cases hw : s.b.awaitingRaa <;> simp [hw] at b3 ⊢ <;> omega
 
--- a second commit before the revoke_and_ack is not a run
+-- a second commit before the revoke_and_ack is not a run, also not after a reconnection
 example : run (Sys.init 10 10) [.commit true [3] [] [], .release true, .commit true [] [] []] = none := by decide
+example : run (Sys.init 10 10) [.commit true [3] [] [], .release true, .disconnect, .reest true, .commit true [] [] []] = none := by
+  decide
 
 /-! ### 3. a revocation is released only for a processed commitment_signed -/
 
+/-- also after a reconnection: `reest` re-owes exactly the revocations the peer has not seen -/
 theorem raa_only_after_cs (va vb : Nat) (evs : List Ev) (s : Sys) (h : run (Sys.init va vb) evs = some s) :
     s.a.raaSent + s.a.owesRaa = s.a.csRecv ∧ s.b.raaSent + s.b.owesRaa = s.b.csRecv := by
   obtain ⟨ca, cb⟩ := Cnt.run evs _ s (Cnt.init va vb) h
@@ -152,20 +160,25 @@ theorem balance_conservation_partial (va vb : Nat) (evs : List Ev) (s : Sys)
           cases e with
           | commit x adds fu fa =>
             cases x
-            · obtain ⟨_, n, ms, _, e⟩ := step_commit_false h0; subst e; rfl
-            · obtain ⟨_, n, ms, _, e⟩ := step_commit_true h0; subst e; rfl
+            · obtain ⟨_, _, n, ms, _, e⟩ := step_commit_false h0; subst e; rfl
+            · obtain ⟨_, _, n, ms, _, e⟩ := step_commit_true h0; subst e; rfl
           | release x =>
             cases x
-            · obtain ⟨_, _, e⟩ := step_release_false h0; subst e; rfl
-            · obtain ⟨_, _, e⟩ := step_release_true h0; subst e; rfl
+            · obtain ⟨_, _, _, e⟩ := step_release_false h0; subst e; rfl
+            · obtain ⟨_, _, _, e⟩ := step_release_true h0; subst e; rfl
           | sendRaa x =>
             cases x
-            · obtain ⟨_, e⟩ := step_sendRaa_false h0; subst e; rfl
-            · obtain ⟨_, e⟩ := step_sendRaa_true h0; subst e; rfl
+            · obtain ⟨_, _, e⟩ := step_sendRaa_false h0; subst e; rfl
+            · obtain ⟨_, _, e⟩ := step_sendRaa_true h0; subst e; rfl
           | recv y =>
             cases y
-            · obtain ⟨_, _, _, _, _, _, e⟩ := step_recv_false h0; subst e; rfl
-            · obtain ⟨_, _, _, _, _, _, e⟩ := step_recv_true h0; subst e; rfl
+            · obtain ⟨_, _, _, _, _, _, _, e⟩ := step_recv_false h0; subst e; rfl
+            · obtain ⟨_, _, _, _, _, _, _, e⟩ := step_recv_true h0; subst e; rfl
+          | disconnect => have e := step_disconnect h0; subst e; rfl
+          | reest y =>
+            cases y
+            · obtain ⟨_, _, _, e⟩ := step_reest_false h0; subst e; rfl
+            · obtain ⟨_, _, _, e⟩ := step_reest_true h0; subst e; rfl
     exact this evs _ s h
   have e1 := EA_explicit s inv.base.ok
   have e2 : EA s.swap = excess s.b s.a := EA_explicit s.swap inv.base'.ok
@@ -234,6 +247,110 @@ example : (runG (Sys.init 1000 1000) goodRun).map (fun s =>
     s.agreed && s.qab.isEmpty && s.qba.isEmpty && s.pendA.isEmpty && s.pendB.isEmpty &&
     s.a.inb.isEmpty && s.a.outb.isEmpty && s.b.inb.isEmpty && s.b.outb.isEmpty &&
     s.a.valueToSelf == 750 && s.b.valueToSelf == 1250) = some true := by decide
+
+/-! ### 5b. disconnection and reestablish -/
+
+/-- Exact accounting on the full streams, in every reachable state of the guarded protocol, connected or
+    not: every commitment_signed `a` signed has been processed by `b` or is in the a→b stream — on the wire,
+    held back, or (while `a` is disconnected) due for retransmission; every commitment_signed `a` processed
+    has been revoked towards `b` or its revoke_and_ack is in / owed to / due for retransmission in that stream.
+    Symmetric for `b`.  (`counters`, unguarded, has the `≤` forms on the wire queues.) -/
+theorem stream_accounting_partial (va vb : Nat) (evs : List Ev) (s : Sys) (h : runG (Sys.init va vb) evs = some s) :
+    s.b.csRecv + countCs s.fullAB = s.a.csSent ∧ s.b.raaRecv + countRaa s.fullAB = s.a.csRecv ∧
+    s.a.csRecv + countCs s.fullBA = s.b.csSent ∧ s.a.raaRecv + countRaa s.fullBA = s.b.csRecv ∧
+    countCs s.fullAB ≤ 1 ∧ countRaa s.fullAB ≤ 1 ∧ countCs s.fullBA ≤ 1 ∧ countRaa s.fullBA ≤ 1 := by
+  have inv := Inv.run h
+  have hbs : Base s.swap.swap := by simpa using inv.base
+  exact ⟨inv.base.i1, inv.base.i2, inv.base'.i1, inv.base'.i2, (inv.base.bounds inv.base').2.2.2.1,
+    inv.base.raaBound inv.base', (inv.base'.bounds hbs).2.2.2.1, inv.base'.raaBound hbs⟩
+
+/-- What a disconnection loses is retransmitted identically: after `disconnect` the a→b stream (now: what `a`
+    will retransmit once it has processed `b`'s channel_reestablish) contains the same commitment_signed —
+    the SAME commitment, not a rebuilt different one — and the same number of revoke_and_acks as before, in
+    the same order (`resend_order`); and `reest` itself changes neither stream.
+    (The update_add / removal messages of the batch are retransmitted too and the receiver has forgotten the
+    copies it had processed: that is the abstract move `mDisc`, under which the good configurations are closed.) -/
+theorem lost_messages_retransmitted_partial (va vb : Nat) (evs : List Ev) (s s' : Sys)
+    (h : runG (Sys.init va vb) evs = some s) (hd : step s .disconnect = some s') :
+    (∀ c, Msg.cs c ∈ s.fullAB → Msg.cs c ∈ s'.fullAB) ∧
+    countCs s'.fullAB = countCs s.fullAB ∧ countRaa s'.fullAB = countRaa s.fullAB ∧
+    raaFirst s'.fullAB = raaFirst s.fullAB ∧
+    (∀ s'' y, step s' (.reest y) = some s'' → s''.fullAB = s'.fullAB ∧ s''.fullBA = s'.fullBA) := by
+  have inv := Inv.run h
+  have hdG : stepG s .disconnect = some s' := by simp [stepG, evOk, hd]
+  have inv' := inv.step hdG
+  have e := step_disconnect hd
+  obtain ⟨_, _, _, _, pa5, pa6, _, _⟩ := pause_fields s.a
+  obtain ⟨_, _, _, _, _, pb6, _, pb8⟩ := pause_fields s.b
+  have hcs : s'.a.csSent = s.a.csSent := by rw [e]; exact pa5
+  have hcr : s'.a.csRecv = s.a.csRecv := by rw [e]; exact pa6
+  have hbc : s'.b.csRecv = s.b.csRecv := by rw [e]; exact pb6
+  have hbr : s'.b.raaRecv = s.b.raaRecv := by rw [e]; exact pb8
+  have hn : s'.needRaaA = s.needRaaA := by rw [e]
+  have c1 : countCs s'.fullAB = countCs s.fullAB := by
+    have := inv.base.i1; have := inv'.base.i1; omega
+  have c2 : countRaa s'.fullAB = countRaa s.fullAB := by
+    have := inv.base.i2; have := inv'.base.i2; omega
+  refine ⟨?_, c1, c2, ?_, ?_⟩
+  · intro c hc
+    have hview := inv.view c hc
+    have hne : countCs s.fullAB ≠ 0 := (hasCs_iff_count _).1 (by
+      simp only [hasCs, List.any_eq_true]; exact ⟨_, hc, rfl⟩)
+    have hlost : s.a.pause.csSent ≠ s.b.csRecv := by
+      have := inv.base.i1; rw [pa5]; omega
+    rw [fullAB_disconnect hd]
+    unfold Node.retrans full
+    rw [if_neg hlost]
+    have : Msg.cs c ∈ s.a.pause.lastBatch := by
+      unfold Node.lastBatch
+      rw [pause_signing_view, ← hview]; simp
+    simp [this]
+  · by_cases hz : countCs s.fullAB = 0
+    · have k : ∀ l : List Msg, countCs l = 0 → raaFirst l = false := by
+        intro l hl
+        induction l with
+        | nil => rfl
+        | cons m l ih =>
+          cases m with
+          | cs c => simp [countCs, List.countP_cons] at hl
+          | raa =>
+            have : countCs l = 0 := by simpa [countCs, List.countP_cons] using hl
+            simp [raaFirst, hasCs_false_of_count this]
+          | add _ _ => exact ih (by simpa [countCs, List.countP_cons] using hl)
+          | fulfill _ => exact ih (by simpa [countCs, List.countP_cons] using hl)
+          | fail _ => exact ih (by simpa [countCs, List.countP_cons] using hl)
+      rw [k _ hz, k _ (by rw [c1]; exact hz)]
+    · rw [inv.base.i7 hz, inv'.base.i7 (by rw [c1]; exact hz), hbr, hn]
+  · intro s'' y hr
+    have hbs : Base s'.swap.swap := by simpa using inv'.base
+    cases y
+    · exact ⟨fullAB_reest_false hr, fullAB_reest_true (s := s'.swap) (s' := s''.swap) inv'.base' (step_swap_of hr)⟩
+    · exact ⟨fullAB_reest_true inv'.base hr, fullAB_reest_false (s := s'.swap) (s' := s''.swap) (step_swap_of hr)⟩
+
+/-- Non-vacuity: three disconnections — (1) with an update_add already processed and its commitment_signed
+    still in flight, (2) losing a revoke_and_ack, (3) with an update_fulfill processed and its
+    commitment_signed in flight — each followed by reestablish and the retransmissions; the run is a guarded
+    run, every commitment agrees, it ends quiescent with the 300 msat moved. -/
+def discRun : List Ev := [
+  .commit true [300] [] [], .release true, .recv false,
+  .disconnect, .reest false, .reest true, .release true,
+  .recv false, .recv false, .sendRaa false, .recv true,
+  .commit false [] [] [], .release false, .recv true, .sendRaa true,
+  .disconnect,
+  .reest true, .reest false, .sendRaa true, .recv false,
+  .commit false [] [0] [], .release false, .recv true,
+  .disconnect, .reest false, .reest true, .release false,
+  .recv true, .recv true, .sendRaa true, .recv false,
+  .commit true [] [] [], .release true, .recv false, .sendRaa false, .recv true ]
+
+example : (runG (Sys.init 1000 1000) discRun).map (fun s =>
+    s.agreed && s.qab.isEmpty && s.qba.isEmpty && s.pendA.isEmpty && s.pendB.isEmpty &&
+    s.a.inb.isEmpty && s.a.outb.isEmpty && s.b.inb.isEmpty && s.b.outb.isEmpty &&
+    !s.a.paused && !s.b.paused && s.a.valueToSelf == 700 && s.b.valueToSelf == 1300) = some true := by decide
+
+-- right after the first disconnection: b has forgotten the RemoteAnnounced HTLC, a's stream is add + commitment_signed again
+example : (runG (Sys.init 1000 1000) (discRun.take 4)).map (fun s =>
+    s.b.inb.isEmpty && s.qab.isEmpty && s.a.paused && (s.fullAB.length == 2) && (countCs s.fullAB == 1)) = some true := by decide
 
 /-! ### 6. send limits: the sender's statistics filter covers the peer's (C01) -/
 
